@@ -125,7 +125,10 @@ def _transfer_paths(ctx):
                 return None
             res = Interp(F, b, Oracle(call=call)).run()
             ctx.check(not any(bb in res.exec_blocks for bb, _ in dels), "C03.D1", "%s:no-delete-when-empty" % fn, site(b), ok="no delete when no entry was produced", bad="delete_keys reachable with no entries")
+        if fn == "handle_sync_task":
+            _sync_reply_after_delete(ctx, b, du, dom, dels, fwds)
     ctx.floor("C03.D1", "source-side transfer paths", n, 3)
+    _silent_skips(ctx)
     # pull path: the source-side DEL is only issued by the restore handler
     callers = set()
     for b in F.all_bodies(bins=False):
@@ -357,6 +360,158 @@ def _umsync_failure(ctx):
         # and the client gets a reply on that arm
         p2 = cfg.path_avoiding(b, (fb, len(b.blocks[fb].stmts)), {h for h, _ in bar}, {(x, len(b.blocks[x].stmts)) for x, t in b.calls() if (callee_decl(t) or "").endswith("set_resp_result")})
         ctx.check(p2 is None, "C03.D4", "umsync-failure:client-answered", site(b, fb), ok="error reply sent", bad="a failed UMSYNC can leave the client without reply")
+
+
+def _sync_reply_after_delete(ctx, b, du, dom, dels, fwds):
+    """UMSYNC: `OK` tells the importing proxy that the key is no longer on the source.  When entries were forwarded the OK reply
+    is reachable only through delete_keys, and after delete_keys every way out answers the task (an error when it failed)."""
+    replies = [(bb, t) for bb, t in b.calls() if (callee_decl(t) or callee_of(t) or "").endswith("set_resp_result")]
+    simple = [bb for bb, i, st in agg_sites(b, "Resp", "Simple")]
+    oks = []
+    for a in simple:
+        best = None
+        for bb, t in replies:
+            if a in dom.get(bb, ()):
+                p = cfg.path_between(b, a, bb, avoid={x for x, _ in replies if x != bb})
+                if p is not None and (best is None or len(p) < best[0]):
+                    best = (len(p), bb)
+        if best:
+            oks.append(best[1])
+    if not ctx.floor("C03.D1", "handle_sync_task: OK replies", len(oks), 1):
+        return
+    dset = {x for x, _ in dels}
+    bad = None
+    for fb, _ in fwds:
+        for ob in oks:
+            p = cfg.path_between(b, fb, ob, avoid=dset)
+            if p is not None:
+                bad = (ob, p)
+    ctx.check(bad is None, "C03.D1", "handle_sync_task:ok-only-after-delete", site(b, bad[0]) if bad else site(b, oks[0]), ok="after forwarding, OK is answered only once the keys were deleted from the source",
+              bad="UMSYNC is answered OK after forwarding but before the source copy is deleted: the importing proxy acknowledges a deleting command while the key still exists on the source (and a failed DEL goes unnoticed)",
+              path=str(cfg.lines_of_path(b, bad[1])) if bad else None)
+    rset = {x for x, _ in replies}
+    bad2 = None
+    for db in dset:
+        for r in b.return_blocks():
+            p = cfg.path_between(b, db, r, avoid=rset)
+            if p is not None:
+                bad2 = (db, p)
+    ctx.check(bad2 is None, "C03.D1", "handle_sync_task:answered-after-delete", site(b, bad2[0]) if bad2 else site(b), ok="every way out after delete_keys sets the reply (error when the delete failed)",
+              bad="after delete_keys a way out sets no reply: a failed source DEL is not reported to the importing proxy", path=str(cfg.lines_of_path(b, bad2[1])) if bad2 else None)
+
+
+def _split_tuple(ty):
+    if not (ty.startswith("(") and ty.endswith(")")):
+        return None
+    out, depth, cur = [], 0, ""
+    for ch in ty[1:-1]:
+        if ch in "<([":
+            depth += 1
+        elif ch in ">)]":
+            depth -= 1
+        if ch == "," and depth == 0:
+            out.append(cur.strip()); cur = ""
+        else:
+            cur += ch
+    if cur.strip():
+        out.append(cur.strip())
+    return out
+
+
+def _proj_type(F, ty, proj):
+    """type of base-type `ty` after the projection list (tuple fields, downcasts, ADT fields); None when unknown"""
+    vi = None
+    for e in proj:
+        if e == "deref":
+            ty = ty[1:].lstrip() if ty.startswith("&") else ty
+            if ty.startswith("mut "):
+                ty = ty[4:]
+            continue
+        if not isinstance(e, dict):
+            return None
+        if "dc" in e:
+            vi = e.get("vi")
+            continue
+        if "f" in e:
+            if e.get("adt"):
+                a = F.adt(norm(e["adt"]))
+                if a is None:
+                    return None
+                try:
+                    ty = a.variants[vi or 0]["fields"][e["f"]]["ty"]
+                except Exception:
+                    return None
+                vi = None
+            else:
+                parts = _split_tuple(ty)
+                if parts is None or e["f"] >= len(parts):
+                    return None
+                ty = parts[e["f"]]
+            continue
+        return None
+    return ty
+
+
+def _silent_skips(ctx):
+    """produce_entries turns the (DUMP, PTTL) replies of a batch of keys into entries.  Its callers read `no entry` as `the key
+    does not exist` (the scan moves its cursor on, UMSYNC answers OK), so a key may be passed over silently only on the
+    replies that mean exactly that: a nil DUMP or an absent PTTL.  Any other reply variant must end in the error return."""
+    F = ctx.F
+    bs = [b for b in _async_body(F, "::produce_entries") if b.path.startswith("migration::scan_migration")]
+    if not bs:
+        ctx.lost("C03.D1", "produce_entries", "async body not found")
+        return
+    b = bs[0]
+    ctx.analysed(b)
+    du = DefUse(b)
+    pushes = {bb for bb, t in calls_to(b, "Vec::push")}
+    succs = b.succs()
+    n = 0
+    bad = []
+    for t_, h in cfg.natural_loops(b):
+        L = cfg.loop_blocks(b, t_, h)
+        if not (pushes & L):
+            continue
+        inner = {x: [y for y in succs[x] if y in L and y != h] for x in range(len(b.blocks))}
+
+        def region(x):
+            seen = {x}; st = [x]
+            while st:
+                y = st.pop()
+                for z in inner[y]:
+                    if z not in seen:
+                        seen.add(z); st.append(z)
+            return seen
+
+        def leaves(R):
+            return any(z2 not in L and not b.blocks[z2].cleanup for z in R for z2 in succs[z])
+        for x in sorted(L):
+            t = b.blocks[x].term
+            if t["k"] != "switch":
+                continue
+            pl = t["discr"].get("mv") or t["discr"].get("cp")
+            subj = None
+            for df in du.defs.get(pl["l"], []) if pl else []:
+                if df[0] == "assign" and df[3]["rv"]["k"] == "discr":
+                    p_ = df[3]["rv"]["p"]
+                    subj = _proj_type(F, b.locals[p_["l"]]["ty"], p_["p"])
+            if subj is None:
+                continue
+            Rx = region(x)
+            if not ((Rx & pushes) or leaves(Rx)):
+                continue
+            for v, y in [(v, y) for v, y in t["targets"]] + [("else", t["otherwise"])]:
+                if y not in L:
+                    continue
+                R = region(y)
+                if (R & pushes) or leaves(R):
+                    continue
+                n += 1   # a decided skip: from here the key is neither pushed nor reported
+                if norm(subj).startswith("protocol::resp::Resp"):
+                    bad.append((x, t.get("line"), v))
+    ctx.floor("C03.D1", "produce_entries: decided skips (nil DUMP / absent PTTL)", n, 2)
+    ctx.check(not bad, "C03.D1", "produce_entries:skip-only-on-nil", site(b, bad[0][0]) if bad else site(b), ok="a key is passed over silently only on a nil DUMP / absent PTTL",
+              bad="a key is passed over silently on a reply variant of the DUMP reply itself (line %s): its callers take `no entry` for `key does not exist`, so the scan moves on and UMSYNC answers OK while the key stays on the source" % (bad[0][1] if bad else ""))
 
 
 def _phases(ctx):
